@@ -1239,6 +1239,13 @@ func ParseThrowExceptionStmt(p *ParserZH) *syntax.ThrowExceptionStmt {
 	var exprs []syntax.Expression
 	// get id
 	exceptionClass := parseID(p)
+	// the arguments are optional (BNF: 抛出 'ID [： ‹表达式› [， ‹表达式›]+]? ！)
+	if match, _ := p.tryConsume(TypeExceptionT); match {
+		return &syntax.ThrowExceptionStmt{
+			ExceptionClass: exceptionClass,
+			Params:         exprs,
+		}
+	}
 	p.consume(TypeFuncCall)
 
 	exprI := ParseExpression(p)
